@@ -219,6 +219,12 @@ def _failed_cid(s):
 
 # ---- oracles (model-free) -------------------------------------------------------------------------
 
+def state_oracle(res):
+    """Logging must not alter the application: interpreter-wide settings (warning filters, excepthooks, std streams,
+    root logging handlers) are the same after the scheduled run as before it."""
+    return ["logging changed process-wide state: %s" % c for c in getattr(res, "state_changes", [])]
+
+
 def acquisition_order(res, threads):
     """cids in the order in which their calls acquired the lock, or None if the calls did not all
     pass through `with self._lock` exactly once (then only the weak oracles apply)."""
@@ -256,8 +262,9 @@ def oracle_memlog(threads, res, obs, final):
     bad = []
     calls = [c for t in threads for c in t]
     bycid = {c["cid"]: c for c in calls}
+    bad += state_oracle(res)
     if res.deadlock:
-        return ["threads deadlocked at %s" % sorted(res.deadlock.items())]
+        return bad + ["threads deadlocked at %s" % sorted(res.deadlock.items())]
     if "raised" in final:
         return ["logger state unreadable: %s" % final["raised"]]
     msgs, sers, tbs = final["messages"], final["serializers"], final["tracebacks"]
@@ -553,9 +560,9 @@ def run_file(S, case, chooser):
 
 
 def oracle_file(case, res, msgs, raw, errors):
-    bad = []
+    bad = state_oracle(res)
     if res.deadlock:
-        return ["threads deadlocked"]
+        return bad + ["threads deadlocked"]
     if errors:
         bad.append("destination raised %s" % errors)
     try:
@@ -855,9 +862,9 @@ def run_reports_once(S, per, chooser):
 
 
 def oracle_reports(per, res, obs):
+    bad = state_oracle(res)
     if res.deadlock:
-        return ["threads deadlocked"]
-    bad = []
+        return bad + ["threads deadlocked"]
     ids = [10 * t + j for t, k in enumerate(per) for j in range(k)]
     if obs["errors"]:
         bad.append("logging raised into the application: %s" % obs["errors"])
@@ -954,9 +961,9 @@ def run_serfail_once(S, plan, chooser):
 
 
 def oracle_serfail(plan, res, obs):
+    bad = state_oracle(res)
     if res.deadlock:
-        return ["threads deadlocked"]
-    bad = []
+        return bad + ["threads deadlocked"]
     if obs["errors"]:
         bad.append("Logger.write raised into the application: %s" % obs["errors"])
     ok = sorted(10 * t + j for t, fl in enumerate(plan) for j, f in enumerate(fl) if not f)
